@@ -105,6 +105,36 @@ def s02_3_type_binding(ctx, P):
                   'accepted signature types of %s equal the RFC set %s' % (short, sorted(hex(x) for x in spec['types'])),
                   acc == spec['types'], function=b.path, table=sorted(acc) if acc is not None else None)
     sign_side_type_sets(ctx, P)
+    inline_data_type_gate(ctx, P)
+
+
+def inline_data_type_gate(ctx, P):
+    """S02-3 (data signatures, sibling rule): the detached path refuses every signature type that does not sign a document
+    (`SignatureConfig::hash_data_to_sign` copies the data into the digest only in the arms Binary and Text and raises an error
+    for the certificate-forming types).  The inline path hashes the literal body for whatever type the packet carries, so it must
+    refuse the same types itself before the primitive: a certification / binding signature copied from a certificate must not
+    verify as the signature of a message whose body is the octet string that signature type hashes."""
+    hb = ctx.body(CFG + 'SignatureConfig::hash_data_to_sign', P + ':S02-3:data-types:anchor')
+    vb = ctx.body(INLINE_VERIFIER, P + ':S02-3:inline-type:anchor')
+    if hb is None or vb is None:
+        return
+    adt = ctx.f.adts.get('packet::signature::types::SignatureType')
+    names = {v['n']: v['d'] for v in adt['vars']} if adt else {}
+    copies = call_blocks(hb, r'io::copy$')
+    doc = accepted_types(hb, copies) if copies else None
+    if doc is not None:
+        doc = set(names.get(x, x) for x in doc)
+    ctx.check(P + ':S02-3:data-types:detached', 'R-table', 'the detached path feeds the document for the signature types Binary and Text only',
+              doc == {0, 1}, function=hb.path, table=sorted(doc) if doc is not None else None)
+    sinks = call_blocks(vb, SINK)
+    rdom(ctx, P + ':S02-3:inline-type', vb, sinks, [r'field:SignatureConfig\.typ$|call:.*SignatureConfig::typ$'],
+         'a signature type check dominates the primitive on the inline path (verify_nested_explicit)')
+    acc = accepted_types(vb, sinks)
+    if acc is not None:
+        acc = set(names.get(x, x) for x in acc)
+    ctx.check(P + ':S02-3:inline-typeset', 'R-sib', 'the inline path accepts exactly the signature types for which the detached path hashes a document',
+              acc is not None and doc is not None and acc == doc, function=vb.path, table=sorted(acc) if acc is not None else None,
+              missing=None if (acc is not None and acc == doc) else 'no rejecting test of the signature type before VerifyingKey::verify: any type (certification, binding, ...) is accepted as a data signature')
 
 
 SIGN_TYPE_SETS = {CFG + 'SignatureConfig::sign_key': {'Key', 'KeyRevocation'}}
@@ -143,7 +173,11 @@ def accepted_types(b, sinks):
         for s in b.blocks[i]['s']:
             if s['d']['l'] == o['l'] and s['r']['k'] == 'discr':
                 d = s['r']
-        if d is None or not d['p']['pr'] or not d['p']['pr'][-1].endswith('SignatureConfig.typ'):
+        if d is None:
+            continue
+        via_field = bool(d['p']['pr']) and d['p']['pr'][-1].endswith('SignatureConfig.typ')
+        via_getter = not d['p']['pr'] and has_origin(b.operand_origins(d['p']), r'call:.*SignatureConfig::typ$')
+        if not (via_field or via_getter):
             continue
         acc = set()
         for v, tgt in t['targets']:
